@@ -419,7 +419,7 @@ def run(tier: str, seed: int) -> Result:
     for i, cfg in enumerate(cfgs):
         noise, sd, depth, bound = cfg[:4]
         app_fails = cfg[4] if len(cfg) > 4 else ""
-        left = max(5.0, (t_end - time.monotonic()) / (len(cfgs) - i))
+        left = max(5.0, (t_end - time.monotonic()) / min(3, len(cfgs) - i))  # most configurations finish far below their share: a hungry one may take a third of what is left
         from .. import world as _world
 
         env_opt = app_fails if app_fails.startswith("env:") else ""
